@@ -18,9 +18,13 @@ from hypothesis import strategies as st
 
 K_HONEST = 1e5        # fixed multiple of the reported estimate (95 % bound with a heavy tail)
 KAPPA = 1e3           # rounding floor, multiples of eps * local scale at the reported final step
-COVERAGE_MIN = {'central': 0.85, 'forward': 0.85, 'backward': 0.85, 'complex': 0.70,
-                'multicomplex': 0.70}
-Q99_MAX = 100.0
+# (b) calibration of the estimate, pooled over the library-chosen step configurations with at
+# least two estimates and n <= 6.  Unchanged tree (2 500-case samples): coverage 0.965-0.985,
+# median 0.01-0.17, q90 0.1-0.7.
+POOLED = ('central', 'forward', 'backward', 'multicomplex')
+COVERAGE_MIN = 0.90
+Q50_MAX = 0.4
+Q90_MAX = 2.0
 POOL_MIN = 300
 
 
@@ -61,8 +65,8 @@ class C02(Prop):
         'single-estimate configurations (k_est = 1) carry no information about truncation error: honesty '
         'is evaluated there too, but recorded as known finding F10 (see known_findings.json)',
     )
-    constants = {'K_HONEST': K_HONEST, 'KAPPA': KAPPA, 'COVERAGE_MIN': COVERAGE_MIN,
-                 'Q99_MAX': Q99_MAX, 'POOL_MIN': POOL_MIN}
+    constants = {'K_HONEST': K_HONEST, 'KAPPA': KAPPA, 'COVERAGE_MIN': COVERAGE_MIN, 'Q50_MAX': Q50_MAX,
+                 'Q90_MAX': Q90_MAX, 'POOL_MIN': POOL_MIN, 'POOLED': POOLED}
     examples = {'quick': 300, 'thorough': 12000}
 
     def strategy(self, tier):
@@ -98,6 +102,9 @@ class C02(Prop):
             if not (lo * (1 - 4 * dc.EPS) <= a <= hi * (1 + 4 * dc.EPS)):
                 raise Violation('record-final_step', 'final_step %r outside the generated steps [%r, %r]'
                                 % (fs_r[j], lo, hi), method=case['method'])
+            if not any(abs(a - h) <= 4 * dc.EPS * h for h in hs):
+                raise Violation('record-final_step', 'final_step %r of entry %d is not one of the steps '
+                                'generated for that entry' % (fs_r[j], j), method=case['method'])
         idx = np.asarray(info.index).ravel()
         if idx.size != val.size:
             raise Violation('record-shape', 'index has %d entries for %d results' % (idx.size, val.size))
@@ -152,13 +159,8 @@ class C02(Prop):
                                 '(floor %.3g) lib=%r exact=%r x=%r f=%s'
                                 % (method, n, order, ev.k_est, err, e, floor, lib, ev.exact_f[j], xv,
                                    exprs.show(case['tree'])), k_est=ev.k_est, ratio=ratio)
-            if n <= 6 and e > 0:
-                # pooled calibration statistic: error beyond 16 rounding units over the estimate
-                kb = 'k1' if ev.k_est < 2 else 'k2+'
-                if err > 16.0 * floor / KAPPA:
-                    ctx.record('err/est|%s|%s' % (method, kb), err / e)     # resolvable errors only
-                else:
-                    ctx.count('pool: error below 16 rounding units|%s|%s' % (method, kb))
+            if n <= 6 and e > 0 and ev.k_est >= 2 and dc.cfgclass(case) == 'default' and method in POOLED:
+                ctx.record('err/est|%s' % method, err / e)
             if K_HONEST * e + floor <= abs(ev.exact_f[j]) / 2:
                 nontrivial = True
         if nontrivial:
@@ -214,22 +216,27 @@ class C02(Prop):
 
     def finalize(self, merged, tier):
         out = []
-        for method in dc.METHODS:
-            vals = merged['values'].get('err/est|%s|k2+' % method, [])
+        for method in POOLED:
+            vals = merged['values'].get('err/est|%s' % method, [])
             if len(vals) < POOL_MIN:
+                merged['classes']['calibration|%s|skipped: only %d pooled cases' % (method, len(vals))] = 1
                 continue
             s = sorted(vals)
             cover = sum(1 for v in s if v <= 1.0) / len(s)
-            q99 = s[int(0.99 * (len(s) - 1))]
-            merged['classes']['calibration|%s|n=%d|coverage=%.3f|q99=%.3g' % (method, len(s), cover, q99)] = 1
-            if cover < COVERAGE_MIN[method]:
-                out.append(Violation('calibration-coverage', '%s: only %.3f of %d pooled cases have '
-                                     'err <= error_estimate (minimum %.2f)' % (method, cover, len(s),
-                                                                              COVERAGE_MIN[method]),
-                                     method=method, coverage=cover, n=len(s)))
-            if q99 > Q99_MAX:
-                out.append(Violation('calibration-q99', '%s: q99(err/estimate) = %.3g > %g over %d cases'
-                                     % (method, q99, Q99_MAX, len(s)), method=method, q99=q99, n=len(s)))
+            q50 = s[int(0.50 * (len(s) - 1))]
+            q90 = s[int(0.90 * (len(s) - 1))]
+            merged['classes']['calibration|%s|n=%d|coverage=%.3f|q50=%.3g|q90=%.3g'
+                              % (method, len(s), cover, q50, q90)] = 1
+            for name, bad, txt in (
+                    ('calibration-coverage', cover < COVERAGE_MIN,
+                     'only %.3f of %d pooled cases have err <= error_estimate (minimum %.2f)'
+                     % (cover, len(s), COVERAGE_MIN)),
+                    ('calibration-q50', q50 > Q50_MAX, 'median(err/estimate) = %.3g > %g over %d cases'
+                     % (q50, Q50_MAX, len(s))),
+                    ('calibration-q90', q90 > Q90_MAX, 'q90(err/estimate) = %.3g > %g over %d cases'
+                     % (q90, Q90_MAX, len(s)))):
+                if bad:
+                    out.append(Violation(name, '%s: %s' % (method, txt), method=method, n=len(s)))
         return out
 
 
